@@ -413,6 +413,68 @@ class Body:
                     self._vt = vt
         return self._vt
 
+    def idoms(self):
+        """immediate dominators over the normal-edge CFG (Cooper-Harvey-Kennedy); {block: idom}, entry maps to itself"""
+        if getattr(self, "_idom", None) is not None:
+            return self._idom
+        order = []
+        seen = {0}
+        stack = [(0, iter(self.blocks[0].term.succs()))]
+        while stack:
+            b, it = stack[-1]
+            adv = False
+            for s in it:
+                if s not in seen:
+                    seen.add(s)
+                    stack.append((s, iter(self.blocks[s].term.succs())))
+                    adv = True
+                    break
+            if not adv:
+                order.append(b)
+                stack.pop()
+        rpo = list(reversed(order))
+        num = {b: i for i, b in enumerate(rpo)}
+        preds = defaultdict(list)
+        for b in rpo:
+            for s in self.blocks[b].term.succs():
+                if s in num:
+                    preds[s].append(b)
+        idom = {0: 0}
+
+        def intersect(a, c):
+            while a != c:
+                while num[a] > num[c]:
+                    a = idom[a]
+                while num[c] > num[a]:
+                    c = idom[c]
+            return a
+        changed = True
+        while changed:
+            changed = False
+            for b in rpo[1:]:
+                ps = [p_ for p_ in preds[b] if p_ in idom]
+                if not ps:
+                    continue
+                new = ps[0]
+                for p_ in ps[1:]:
+                    new = intersect(p_, new)
+                if idom.get(b) != new:
+                    idom[b] = new
+                    changed = True
+        self._idom = idom
+        return idom
+
+    def dominates(self, h, u):
+        idom = self.idoms()
+        if u not in idom or h not in idom:
+            return False
+        while True:
+            if u == h:
+                return True
+            if u == 0:
+                return False
+            u = idom[u]
+
     def live_blocks(self):
         if self._reach is None:
             self._reach = self.reachable(0)
